@@ -10,6 +10,11 @@ import CtyModel.Lemmas.SetRefineRun
 import CtyModel.Lemmas.SetFnsTie
 import CtyModel.Lemmas.ValEqRules
 import CtyModel.Lemmas.ValEqSymm
+import CtyModel.Lemmas.d03bLess
+import CtyModel.Lemmas.d03bCaps
+import CtyModel.Lemmas.d03bEncTop
+import CtyModel.Lemmas.d03bEqFull
+import CtyModel.Lemmas.d03bConv
 namespace CtyModel
 namespace C03
 
@@ -1006,6 +1011,541 @@ example :
     simp [rawB, h]
   · exact (List.Perm.cons _ (List.Perm.swap _ _ _)).trans (List.Perm.swap _ _ _) |>.trans
       (List.Perm.cons _ (List.Perm.refl _)) |>.symm |>.symm
+
+
+/-! ########################################################################
+### d03b — second deepening: the hash TEXT, compound members, capsule types
+
+New vocabulary (`SetRulesD03b.lean`, evaluated by the driver on the generated
+values): `Value.sameShape` — two values of one type differ at most in number
+leaves with the same hashed text (10 significant digits), in unknown leaves and in
+capsule leaves (what `harness/c03val.go c03SameShape` computes through the public
+API); `Ty.setFree` — no set type occurs (capsule types may);
+`Payload.numTextsOk` — every hashed number text is non-empty over `0-9.e+-Inf`
+(what `big.Float.String` writes; checked on every generated value);
+`Payload.tieFree` — any two members are `RawEquals` or have different hash texts.
+######################################################################## -/
+
+/-! #### injectivity of the hash text (strings, bools, nulls, structure) -/
+
+/-- **The set hash text is injective up to `sameShape`.**  Clause *"equal values
+have the same hash"* read backwards, as far as it can hold: two well-formed values
+of one set-free type whose `makeSetHashBytes` results coincide have the same
+structure, the same lengths, the same map keys, equal strings and bools, null in
+the same places — they can differ only in number leaves (same 10 digits),
+unknown leaves and capsule leaves.  The delimiters `; : [ ] { } < >` never occur
+unescaped inside a `%q`-quoted string (`D03b.quoteChars_prefix`), so this is a
+statement about the very function the `hash.bytes` correspondence diffs: writing
+strings unquoted (seeded/C03-string-hash-text-unescaped-quotes) breaks that
+correspondence AND contradicts this theorem (`["a","b"]` vs `["a\";\"b"]`). -/
+theorem hash_text_injective_setfree (t : Ty) (a b : Payload) (hw : t.wf = true) (hsf : t.setFree = true)
+    (wa : a.shaped t = true) (wb : b.shaped t = true) (na : a.numTextsOk = true) (nb : b.numTextsOk = true)
+    (h : Bytes) (ha : hashBytes ⟨t, a⟩ = .ok h) (hb : hashBytes ⟨t, b⟩ = .ok h) :
+    Value.sameShape ⟨t, a⟩ ⟨t, b⟩ = true :=
+  D03b.sameShape_of_hashBytes_eq hw hsf wa wb na nb ha hb
+
+/-- **…and exactly so**: on a set-free type two well-formed values have the same hash
+text IF AND ONLY IF they are `sameShape` — the relation the harness classifies hash
+ties with is the kernel of `makeSetHashBytes`, no coarser and no finer (the "only if"
+needs the number texts to be over `0-9.e+-Inf`; the "if" needs nothing). -/
+theorem hash_text_eq_iff_sameShape (t : Ty) (a b : Payload) (hw : t.wf = true) (hsf : t.setFree = true)
+    (wa : a.shaped t = true) (wb : b.shaped t = true) (na : a.numTextsOk = true) (nb : b.numTextsOk = true)
+    (h : Bytes) (ha : hashBytes ⟨t, a⟩ = .ok h) :
+    hashBytes ⟨t, b⟩ = .ok h ↔ Value.sameShape ⟨t, a⟩ ⟨t, b⟩ = true :=
+  ⟨fun hb => hash_text_injective_setfree t a b hw hsf wa wb na nb h ha hb,
+    fun hs => by rw [← D03b.hashBytes_of_sameShape hw hsf wa wb hs]; exact ha⟩
+
+/-- …contrapositive: values that are not `sameShape` never share a hash text (they
+may still share the 32-bit `Hash`; `Equivalent` then tells them apart). -/
+theorem different_shape_different_hash_text (t : Ty) (a b : Payload) (hw : t.wf = true) (hsf : t.setFree = true)
+    (wa : a.shaped t = true) (wb : b.shaped t = true) (na : a.numTextsOk = true) (nb : b.numTextsOk = true)
+    (hne : Value.sameShape ⟨t, a⟩ ⟨t, b⟩ = false) (h : Bytes) (ha : hashBytes ⟨t, a⟩ = .ok h) :
+    hashBytes ⟨t, b⟩ ≠ .ok h := by
+  intro hb
+  rw [hash_text_injective_setfree t a b hw hsf wa wb na nb h ha hb] at hne
+  cases hne
+
+/-- the seeded collision pair: a list of two strings and a list of one string that
+spells the delimiter — not `sameShape`, so their hash texts differ -/
+example : hashBytes ⟨.list .string, .seq [.s "a", .s "b"]⟩ = .ok (strBytes "[\"a\";\"b\";]") ∧
+    hashBytes ⟨.list .string, .seq [.s "a\";\"b"]⟩ ≠ .ok (strBytes "[\"a\";\"b\";]") :=
+  ⟨by decide +kernel, different_shape_different_hash_text (.list .string) (.seq [.s "a", .s "b"]) (.seq [.s "a\";\"b"])
+    rfl rfl (by decide +kernel) (by decide +kernel) (by decide +kernel) (by decide +kernel) (by decide +kernel) _
+    (by decide +kernel)⟩
+
+/-- the hypotheses are jointly satisfiable by a nested value with marks, a capsule,
+a null, an unknown, a non-integer number and escapes; and `sameShape` does relate
+different values: the tuples of `set_order_counterexample` (numbers that agree in
+10 digits) and two differently refined unknowns -/
+example : Ty.setFree (.object ["a", "b"] [.map (.tuple [.number, .capsule 1]), .list .string] []) = true ∧
+    Payload.shaped (.object ["a", "b"] [.map (.tuple [.number, .capsule 1]), .list .string] [])
+      (.smap ["a", "b"] [.smap ["k\"", "l"] [.seq [.n w5f, .caps], .null], .seq [.marked ["m"] (.s ";"), .unk (.str .f "x")]]) = true ∧
+    Payload.numTextsOk (.smap ["a", "b"] [.smap ["k\"", "l"] [.seq [.n w5f, .caps], .null], .seq [.marked ["m"] (.s ";"), .unk (.str .f "x")]]) = true ∧
+    Value.sameShape ⟨w6T, w6a⟩ ⟨w6T, w6b⟩ = true ∧
+    Value.sameShape ⟨.list .string, .seq [.unk .unref]⟩ ⟨.list .string, .seq [.unk (.str .f "x")]⟩ = true ∧
+    Value.sameShape ⟨.list .string, .seq [.s "a", .s "b"]⟩ ⟨.list .string, .seq [.s "a\";\"b"]⟩ = false := by
+  decide +kernel
+
+/-! #### sets of COMPOUND members: `Less`, iteration order, and what a tie can be -/
+
+/-- the members: `intMember` (well-formed, wholly known, mark-free, integer numbers
+at any precisions) whose strings the model can quote -/
+def QMember (e : Ty) : Type := { p : Payload // p.intMember e = true ∧ p.quotable = true }
+
+/-- `setRules{e}` restricted to those members (the very functions of `ctyRules e`) -/
+def ctyRulesOnQ (e : Ty) : Rules (QMember e) where
+  hash := fun p => (ctyRules e).hash p.1
+  equiv := fun a b => (ctyRules e).equiv a.1 b.1
+  less := (ctyRules e).less.map fun l a b => l a.1 b.1
+
+theorem cty_rules_lawful_q (e : Ty) (hw : e.wf = true) (hp : e.plain = true) : (ctyRulesOnQ e).Lawful := by
+  have sp := fun a : QMember e => Payload.intMember_spec a.2.1
+  have eqv : ∀ a b : QMember e, (ctyRulesOnQ e).equiv a b = rawB e a.1 b.1 := fun a b =>
+    ctyRules_equiv_eq hw hp (sp a).1 (sp a).2.1 (sp a).2.2.1 (sp b).1 (sp b).2.1 (sp b).2.2.1
+  refine ⟨fun a => ?_, fun a b h => ?_, fun a b c h1 h2 => ?_, fun a b h => ?_⟩
+  · rw [eqv]; exact rawB_refl e a.1 hp (sp a).1
+  · rw [eqv] at h ⊢; rw [rawB_symm e b.1 a.1 hp (sp b).1 (sp a).1]; exact h
+  · rw [eqv] at h1 h2 ⊢; exact rawB_trans e a.1 b.1 c.1 hp (sp a).1 (sp b).1 (sp c).1 h1 h2
+  · rw [eqv] at h
+    exact ctyRules_hash_eq_ints hp a.2.1 b.2.1 h
+
+/-- **`setRules.Less` never fails on members of a compound element type** (list,
+map, tuple, object — set-free, capsule-free) and is decided by the specification
+`D03b.compLessB`: not `RawEquals`; null after non-null; otherwise the byte order
+of the two hash texts.  `ctyRules.less` is what it returns (no default taken). -/
+theorem setLess_total_compound (e : Ty) (hw : e.wf = true) (hp : e.plain = true) (hc : e.isPrim = false)
+    (x y : QMember e) :
+    setLess e x.1 y.1 = .ok (D03b.compLessB e x.1 y.1) ∧ ctyLessB e x.1 y.1 = D03b.compLessB e x.1 y.1 := by
+  have h := D03b.ctyLessB_comp hw hp hc x.2 y.2
+  exact ⟨by rw [h.1, h.2], h.2⟩
+
+/-- **`setRules.Less` is a strict order on compound members, total between
+inequivalent members of a tie-free list** — the hypothesis of
+`values_order_indep_of_total` discharged for cty's rules beyond primitive element
+types.  `Payload.tieFree` is decidable and is exactly what fails in the recorded
+finding less-tied-inequivalent-members (`set_order_counterexample`). -/
+theorem cty_less_strict_total_compound (e : Ty) (hw : e.wf = true) (hp : e.plain = true) (hc : e.isPrim = false)
+    (l : List (QMember e)) (htf : Payload.tieFree e (l.map (·.1)) = true) :
+    (ctyRulesOnQ e).less = some (fun a b => ctyLessB e a.1 b.1) ∧
+    SetImpl.StrictTotalOn (ctyRulesOnQ e) (fun a b => ctyLessB e a.1 b.1) l := by
+  have st := D03b.compLessB_strictTotal hp (l.map (·.1))
+    (fun p hm => by obtain ⟨a, _, rfl⟩ := List.mem_map.mp hm; exact a.2)
+    (D03b.tieFree_spec hw hp
+      (fun p hm => by obtain ⟨a, _, rfl⟩ := List.mem_map.mp hm; exact (Payload.intMember_spec a.2.1).1) htf)
+  have hl : ∀ a b : QMember e, ctyLessB e a.1 b.1 = D03b.compLessB e a.1 b.1 := fun a b =>
+    (D03b.ctyLessB_comp hw hp hc a.2 b.2).2
+  have mem : ∀ a ∈ l, a.1 ∈ l.map (·.1) := fun a ha => List.mem_map_of_mem ha
+  have sp := fun a : QMember e => Payload.intMember_spec a.2.1
+  refine ⟨rfl, fun a ha => ?_, fun a ha b hb c hc' h1 h2 => ?_, fun a ha b hb hne => ?_⟩
+  · rw [hl]; exact st.1 _ (mem a ha)
+  · rw [hl] at h1 h2 ⊢; exact st.2.1 _ (mem a ha) _ (mem b hb) _ (mem c hc') h1 h2
+  · rw [hl, hl]
+    have : (ctyRulesOnQ e).equiv a b = rawB e a.1 b.1 :=
+      ctyRules_equiv_eq hw hp (sp a).1 (sp a).2.1 (sp a).2.2.1 (sp b).1 (sp b).2.1 (sp b).2.2.1
+    rw [this] at hne
+    exact st.2.2 _ (mem a ha) _ (mem b hb) hne
+
+/-- **Value-level iteration order for compound members.**  Two sets of lists, maps,
+tuples or objects (of strings, bools, integers, nulls) that hold the same tie-free
+members — whatever the insertion order, bucket layout or history — iterate
+identically. -/
+theorem valueSet_iteration_order_indep_compound (e : Ty) (hw : e.wf = true) (hp : e.plain = true)
+    (hc : e.isPrim = false) {s1 s2 : SetImpl (QMember e)} (h1 : SetImpl.Inv (ctyRulesOnQ e) s1)
+    (hperm : (SetImpl.values s1).Perm (SetImpl.values s2))
+    (htf : Payload.tieFree e ((SetImpl.values s1).map (·.1)) = true) :
+    SetImpl.iter (ctyRulesOnQ e) s1 = SetImpl.iter (ctyRulesOnQ e) s2 := by
+  have h := cty_less_strict_total_compound e hw hp hc (SetImpl.values s1) htf
+  simp only [SetImpl.iter, h.1]
+  exact values_order_indep_of_total _ h1 hperm h.2
+
+/-- …in particular sets built from the same pairwise different tie-free inputs in any order. -/
+theorem valueSet_insertion_order_indep_compound (e : Ty) (hw : e.wf = true) (hp : e.plain = true)
+    (hc : e.isPrim = false) {l l' : List (QMember e)} (hl : SetImpl.Inequiv (ctyRulesOnQ e) l) (hperm : l.Perm l')
+    (htf : Payload.tieFree e (l.map (·.1)) = true) :
+    SetImpl.iter (ctyRulesOnQ e) (SetImpl.fromList (ctyRulesOnQ e) l) =
+      SetImpl.iter (ctyRulesOnQ e) (SetImpl.fromList (ctyRulesOnQ e) l') := by
+  have h := cty_less_strict_total_compound e hw hp hc l htf
+  have hR := cty_rules_lawful_q e hw hp
+  simp only [SetImpl.iter, h.1]
+  exact values_order_indep_of_insertion hR _ hl hperm h.2
+
+/-- **What a `Less` tie can be** (the classification `c03TieExplained` of the
+harness, proved): two compound members that are not `Equals` and that
+`setRules.Less` orders neither way are `sameShape` — same structure, strings,
+bools and nulls; they differ only in number leaves that agree in 10 significant
+digits.  So the recorded finding less-tied-inequivalent-members has no other
+cause on set-free capsule-free wholly known members. -/
+theorem less_tie_explained (e : Ty) (hw : e.wf = true) (hp : e.plain = true) (hsf : e.setFree = true)
+    (hc : e.isPrim = false) (x y : QMember e) (nx : x.1.numTextsOk = true) (ny : y.1.numTextsOk = true)
+    (hne : (ctyRulesOnQ e).equiv x y = false) (h1 : ctyLessB e x.1 y.1 = false) (h2 : ctyLessB e y.1 x.1 = false) :
+    Value.sameShape ⟨e, x.1⟩ ⟨e, y.1⟩ = true := by
+  have sp := fun a : QMember e => Payload.intMember_spec a.2.1
+  have : (ctyRulesOnQ e).equiv x y = rawB e x.1 y.1 :=
+    ctyRules_equiv_eq hw hp (sp x).1 (sp x).2.1 (sp x).2.2.1 (sp y).1 (sp y).2.1 (sp y).2.2.1
+  rw [this] at hne
+  rw [(D03b.ctyLessB_comp hw hp hc x.2 y.2).2] at h1
+  rw [(D03b.ctyLessB_comp hw hp hc y.2 x.2).2] at h2
+  exact D03b.tie_sameShape hw hp hsf x.2 y.2 nx ny hne h1 h2
+
+/-- a tie-free list of tuples (strings, integers at two precisions, a null member);
+the tied pair of `set_order_counterexample` is not tie-free, is `sameShape`, and
+`less_tie_explained` applies to it -/
+example : Payload.tieFree (.tuple [.string, .number])
+      [.seq [.s "a", .n (Num.ofInt 1 64)], .seq [.s "a", .n (.fin false 1 70 53)], .null, .seq [.s "b;", .null]] = true ∧
+    Payload.tieFree w6T [w6a, w6b] = false ∧ Payload.intMember w6T w6a = true ∧ Payload.intMember w6T w6b = true ∧
+    Value.sameShape ⟨w6T, w6a⟩ ⟨w6T, w6b⟩ = true := by decide +kernel
+
+
+/-! #### values that CONTAIN SETS (sets of sets, lists of sets, objects with set attributes)
+
+`appendSetHashBytes`, `RawEquals` and `Less` read a set-typed value through its
+iteration order, which `Less` itself defines.  `D03b.canon` writes that reading
+out: every set node becomes the LIST of its members sorted by the specification of
+`Less` (`D03b.lessEnc`), `D03b.enc` turns `set e` into `list e`; and
+`D03b.S_all` proves, by induction over the nesting levels `lvl n` that the model
+functions are tied through, that the transliterations `hashS`/`rawK`/`Lvl.less`/
+`Lvl.iter` compute on a set-containing value exactly what they compute on its
+set-free transliteration.  Carrier (`D03b.G`, `D03b.capFree`): well-formed, no
+mark, quotable strings, no capsule type — sets at ANY depth, members null, unknown
+(any refinement) or known, numbers of any kind. -/
+
+/-- **`RawEquals` on values with sets never fails and is an equivalence relation** —
+the first clause of C03 beyond set-free types: it is `RawEquals` of the
+transliterations. -/
+theorem rawEquals_equiv_with_sets (t : Ty) (hc : D03b.capFree t = true) (a b c : Payload)
+    (ha : D03b.G t a) (hb : D03b.G t b) (hc' : D03b.G t c) :
+    rawEq ⟨t, a⟩ ⟨t, b⟩ = .ok (rawB (D03b.enc t) (D03b.canon t a) (D03b.canon t b)) ∧
+    rawEq ⟨t, a⟩ ⟨t, a⟩ = .ok true ∧
+    rawEq ⟨t, a⟩ ⟨t, b⟩ = rawEq ⟨t, b⟩ ⟨t, a⟩ ∧
+    (rawEq ⟨t, a⟩ ⟨t, b⟩ = .ok true → rawEq ⟨t, b⟩ ⟨t, c⟩ = .ok true → rawEq ⟨t, a⟩ ⟨t, c⟩ = .ok true) := by
+  have pl := D03b.enc_plain t hc
+  have sa := (D03b.canon_G t a ha).1
+  have sb := (D03b.canon_G t b hb).1
+  have sc := (D03b.canon_G t c hc').1
+  simp only [rawEq]
+  rw [D03b.rawEqP_enc hc ha hb, D03b.rawEqP_enc hc ha ha, D03b.rawEqP_enc hc hb ha, D03b.rawEqP_enc hc hb hc',
+    D03b.rawEqP_enc hc ha hc', rawB_refl _ _ pl sa, rawB_symm _ _ _ pl sb sa]
+  refine ⟨rfl, rfl, rfl, fun h1 h2 => ?_⟩
+  simp only [Res.ok.injEq] at h1 h2 ⊢
+  exact rawB_trans _ _ _ _ pl sa sb sc h1 h2
+
+/-- **Hashing a value with sets never fails**, and the hash text is the hash text of
+the transliteration (a set hashes as the list of its members in `Less` order). -/
+theorem hash_with_sets (t : Ty) (hc : D03b.capFree t = true) (a : Payload) (ha : D03b.G t a) :
+    hashBytes ⟨t, a⟩ = hashBytes ⟨D03b.enc t, D03b.canon t a⟩ ∧ ∃ bs, hashBytes ⟨t, a⟩ = .ok bs ∧
+      Value.hash ⟨t, a⟩ = .ok (crc32 bs) := by
+  have g := D03b.canon_G t a ha
+  have e : hashBytes ⟨t, a⟩ = hashBytes ⟨D03b.enc t, D03b.canon t a⟩ := D03b.hashBytesP_enc hc ha
+  obtain ⟨bs, h1, _⟩ := hash_ok (D03b.enc_plain t hc) g.1 g.2.1 g.2.2
+  refine ⟨e, bs, e.trans h1, ?_⟩
+  simp only [Value.hash, e.trans h1, Value.containsMarked, ha.2.1]
+  rfl
+
+/-- **`RawEquals` values with sets hash alike** when their numbers are integers (at
+any precisions): the clause "equal values have the same hash" for values with sets
+at any depth, for the equality `RawEquals`. -/
+theorem rawEquals_same_hash_with_sets (t : Ty) (hc : D03b.capFree t = true) (a b : Payload)
+    (ha : D03b.G t a) (hb : D03b.G t b) (ia : a.intNums = true) (ib : b.intNums = true)
+    (h : rawEq ⟨t, a⟩ ⟨t, b⟩ = .ok true) :
+    hashBytes ⟨t, a⟩ = hashBytes ⟨t, b⟩ ∧ Value.hash ⟨t, a⟩ = Value.hash ⟨t, b⟩ := by
+  rw [(rawEquals_equiv_with_sets t hc a b b ha hb hb).1] at h
+  simp only [Res.ok.injEq] at h
+  have hbytes : hashBytes ⟨t, a⟩ = hashBytes ⟨t, b⟩ := by
+    rw [(hash_with_sets t hc a ha).1, (hash_with_sets t hc b hb).1]
+    exact hashBytesP_eq_of_rawB_ints (D03b.enc_plain t hc) (D03b.canon_G t a ha).1 (D03b.canon_intNums ia)
+      (D03b.canon_G t b hb).1 (D03b.canon_intNums ib) h
+  exact ⟨hbytes, hash_eq_of_hashBytes_eq hbytes (by simp [Value.containsMarked, ha.2.1, hb.2.1])⟩
+
+/-- **The hash text of values with sets is injective up to `sameShape` of the
+transliterations**: equal hash texts ⇒ the same structure with every set read in
+iteration order, equal strings, bools and nulls. -/
+theorem hash_text_injective_with_sets (t : Ty) (hc : D03b.capFree t = true) (a b : Payload)
+    (ha : D03b.G t a) (hb : D03b.G t b) (na : a.numTextsOk = true) (nb : b.numTextsOk = true)
+    (h : Bytes) (h1 : hashBytes ⟨t, a⟩ = .ok h) (h2 : hashBytes ⟨t, b⟩ = .ok h) :
+    sameShape (fun _ _ _ => false) (D03b.enc t) (D03b.canon t a) (D03b.canon t b) = true := by
+  rw [(hash_with_sets t hc a ha).1] at h1
+  rw [(hash_with_sets t hc b hb).1] at h2
+  have pl := D03b.enc_plain t hc
+  have sf : (D03b.enc t).setFree = true := D03b.setFree_of_plain _ pl
+  exact D03b.sameShape_of_hashS_eq _ _ _ sf (D03b.canon_G t a ha).1 (D03b.canon_G t b hb).1
+    (D03b.canon_numTextsOk na) (D03b.canon_numTextsOk nb) (by rw [← D03b.hashBytesP_eq]; exact h1)
+    (by rw [← D03b.hashBytesP_eq]; exact h2)
+
+/-- **`Less` and the iteration of a set value never fail** on such members (sets of
+sets included); `Less` is the specification `lessEnc` on the transliterated
+members and the iteration is the stable sort by it. -/
+theorem setIter_total_with_sets (e : Ty) (hc : D03b.capFree e = true) (vs : List Payload) (hg : D03b.GAll e vs) :
+    setIter e vs = .ok (SetImpl.sortStable (fun x y => D03b.lessEnc e (D03b.canon e x) (D03b.canon e y)) vs) ∧
+    ∀ x ∈ vs, ∀ y ∈ vs, setLess e x y = .ok (ctyLessB e x y) ∧
+      ctyLessB e x y = D03b.lessEnc e (D03b.canon e x) (D03b.canon e y) :=
+  ⟨D03b.setIter_enc hc hg, fun x hx y hy =>
+    D03b.ctyLessB_enc hc (D03b.GAll_iff.mp hg x hx) (D03b.GAll_iff.mp hg y hy)⟩
+
+/-- **Less-sorted iteration is a function of the member set** on the carrier where
+`Less` is a strict total order (`Payload.lessStrictTotal`, decidable: it runs
+`setRules.Less` on all pairs and triples of the members): two set values — of
+strings, of tuples, of SETS, of lists of sets … — that hold the same members in any
+bucket layout iterate identically, are `RawEquals`, and have the same hash text
+and `Hash`. -/
+theorem set_value_function_of_members (e : Ty) (hc : D03b.capFree e = true) (ix iy : List Int) (xs ys : List Payload)
+    (lx : ix.length = xs.length) (ly : iy.length = ys.length) (gx : D03b.GAll e xs) (hperm : xs.Perm ys)
+    (ht : Payload.lessStrictTotal e xs = true) :
+    setIter e xs = setIter e ys ∧
+    rawEq ⟨.set e, .sset ix xs⟩ ⟨.set e, .sset iy ys⟩ = .ok true ∧
+    hashBytes ⟨.set e, .sset ix xs⟩ = hashBytes ⟨.set e, .sset iy ys⟩ ∧
+    Value.hash ⟨.set e, .sset ix xs⟩ = Value.hash ⟨.set e, .sset iy ys⟩ := by
+  have st := D03b.strictTotalB_spec ht
+  have gy : D03b.GAll e ys := D03b.GAll_iff.mpr fun v hv => D03b.GAll_iff.mp gx v (hperm.mem_iff.mpr hv)
+  have hcs : D03b.capFree (.set e) = true := hc
+  have ga : D03b.G (.set e) (.sset ix xs) :=
+    ⟨by simp [Payload.shaped, lx, gx.1], by simpa [Payload.containsMarked] using gx.2.1, by simpa [Payload.quotable] using gx.2.2⟩
+  have gb : D03b.G (.set e) (.sset iy ys) :=
+    ⟨by simp [Payload.shaped, ly, gy.1], by simpa [Payload.containsMarked] using gy.2.1, by simpa [Payload.quotable] using gy.2.2⟩
+  have hcan : D03b.canon (.set e) (.sset ix xs) = D03b.canon (.set e) (.sset iy ys) := by
+    have := D03b.canonSet_perm hc gx hperm st
+    simpa [D03b.canon, D03b.canonSet] using this
+  have hraw : rawEq ⟨.set e, .sset ix xs⟩ ⟨.set e, .sset iy ys⟩ = .ok true := by
+    rw [(rawEquals_equiv_with_sets _ hcs _ _ _ ga gb gb).1, hcan,
+      rawB_refl _ _ (D03b.enc_plain _ hcs) (D03b.canon_G _ _ gb).1]
+  have hbytes : hashBytes ⟨.set e, .sset ix xs⟩ = hashBytes ⟨.set e, .sset iy ys⟩ := by
+    rw [(hash_with_sets _ hcs _ ga).1, (hash_with_sets _ hcs _ gb).1, hcan]
+  exact ⟨D03b.setIter_perm hc gx hperm st, hraw, hbytes,
+    hash_eq_of_hashBytes_eq hbytes (by simp [Value.containsMarked, ga.2.1, gb.2.1])⟩
+
+/-- the carrier is inhabited by a set of sets of strings, a set of lists of sets of
+numbers and a set holding an unknown and a null; the tied tuples of
+`set_order_counterexample` are outside it -/
+example :
+    Payload.lessStrictTotal (.set .string)
+      [.sset [1, 2] [.s "a", .s "b"], .sset [3] [.s "a"], .sset [] [], .null] = true ∧
+    Payload.lessStrictTotal (.list (.set .number))
+      [.seq [.sset [5] [.n (Num.ofInt 1 64)]], .seq [.sset [5, 6] [.n (Num.ofInt 1 64), .n (.fin false 1 70 53)]], .seq []] = true ∧
+    Payload.lessStrictTotal .string [.s "x", .unk .unref, .null] = true ∧
+    Payload.lessStrictTotal w6T [w6a, w6b] = false := by decide +kernel
+
+example : D03b.G (.set (.set .string)) (.sset [7, 8] [.sset [1, 2] [.s "a", .s "b;\""], .sset [3] [.unk (.str .f "p")]]) ∧
+    D03b.capFree (.set (.set .string)) = true :=
+  ⟨⟨by decide +kernel, by decide +kernel, by decide +kernel⟩, rfl⟩
+
+
+/-! #### `Equals` on values with sets at any depth
+
+`Value.Equals` on two sets looks every member of either set up in the other with
+`Has` (hash bucket, then `Equals` on the members) — a different algorithm from
+`RawEquals` (compare the two iteration orders position by position).  On values
+all of whose set nodes are well-formed (`Payload.deepMember`, decidable: shaped,
+mark-free, quotable, wholly known, integer numbers; at every set node the bucket
+ids are the member hashes, no two members are `RawEquals`, and `Less` is a strict
+total order on the members) the two coincide — for sets of sets, lists of sets,
+objects with set attributes, to any depth (`D03b.equalsFuel_ok'`; the set branch
+is `D03b.setEquals_spec` over `D03b.sorted_match`). -/
+
+/-- **`Equals` = `RawEquals` on wholly known values with sets**: the clause "agrees
+with raw equality on wholly known values of the same type", beyond set-free types;
+in particular `Equals` never fails there and returns a known bool. -/
+theorem equals_eq_rawEquals_with_sets (t : Ty) (hc : D03b.capFree t = true) (a b : Payload)
+    (ha : a.deepMember t = true) (hb : b.deepMember t = true) :
+    equals ⟨t, a⟩ ⟨t, b⟩ = (rawEq ⟨t, a⟩ ⟨t, b⟩).map boolVal ∧
+    (equals ⟨t, a⟩ ⟨t, b⟩ = .ok (boolVal true) ↔ rawEq ⟨t, a⟩ ⟨t, b⟩ = .ok true) := by
+  have wa := D03b.W.of ha
+  have wb := D03b.W.of hb
+  rw [D03b.equals_full hc wa wb, (rawEquals_equiv_with_sets t hc a b b wa.m.1 wb.m.1 wb.m.1).1]
+  refine ⟨rfl, ?_⟩
+  simp only [D03b.R']
+  cases rawB (D03b.enc t) (D03b.canon t a) (D03b.canon t b) <;> simp [boolVal]
+
+/-- …so there **`Equals` is reflexive, symmetric and transitive, and `Equals`-true
+values have the same hash text and `Hash`** ("any two values that are equal have the
+same hash", for values with sets). -/
+theorem equals_equiv_with_sets (t : Ty) (hc : D03b.capFree t = true) (a b c : Payload)
+    (ha : a.deepMember t = true) (hb : b.deepMember t = true) (hc' : c.deepMember t = true) :
+    equals ⟨t, a⟩ ⟨t, a⟩ = .ok (boolVal true) ∧
+    equals ⟨t, a⟩ ⟨t, b⟩ = equals ⟨t, b⟩ ⟨t, a⟩ ∧
+    (equals ⟨t, a⟩ ⟨t, b⟩ = .ok (boolVal true) → equals ⟨t, b⟩ ⟨t, c⟩ = .ok (boolVal true) →
+      equals ⟨t, a⟩ ⟨t, c⟩ = .ok (boolVal true)) ∧
+    (equals ⟨t, a⟩ ⟨t, b⟩ = .ok (boolVal true) →
+      hashBytes ⟨t, a⟩ = hashBytes ⟨t, b⟩ ∧ Value.hash ⟨t, a⟩ = Value.hash ⟨t, b⟩) := by
+  have wa := D03b.W.of ha
+  have wb := D03b.W.of hb
+  have wc := D03b.W.of hc'
+  have q := rawEquals_equiv_with_sets t hc a b c wa.m.1 wb.m.1 wc.m.1
+  have eaa := equals_eq_rawEquals_with_sets t hc a a ha ha
+  have eab := equals_eq_rawEquals_with_sets t hc a b ha hb
+  have eba := equals_eq_rawEquals_with_sets t hc b a hb ha
+  have ebc := equals_eq_rawEquals_with_sets t hc b c hb hc'
+  have eac := equals_eq_rawEquals_with_sets t hc a c ha hc'
+  refine ⟨eaa.2.mpr q.2.1, by rw [eab.1, eba.1, q.2.2.1], fun h1 h2 => eac.2.mpr (q.2.2.2 (eab.2.mp h1) (ebc.2.mp h2)),
+    fun h => rawEquals_same_hash_with_sets t hc a b wa.m.1 wb.m.1 wa.m.2.2 wb.m.2.2 (eab.2.mp h)⟩
+
+/-- the admitted members of a set whose element type may itself contain sets -/
+def DeepMember (e : Ty) : Type := { p : Payload // p.deepMember e = true }
+
+/-- `setRules{e}` restricted to those members (the very functions of `ctyRules e`) -/
+def ctyRulesOnDeep (e : Ty) : Rules (DeepMember e) where
+  hash := fun p => (ctyRules e).hash p.1
+  equiv := fun a b => (ctyRules e).equiv a.1 b.1
+  less := (ctyRules e).less.map fun l a b => l a.1 b.1
+
+/-- **cty's `setRules` meet the contract of `cty/set` for element types that contain
+sets** (sets of sets, sets of lists of sets, sets of objects with set attributes …):
+`Equivalent` is an equivalence on the admitted members and equivalent members hash
+alike. -/
+theorem cty_rules_lawful_with_sets (e : Ty) (hc : D03b.capFree e = true) : (ctyRulesOnDeep e).Lawful := by
+  have eqv : ∀ a b : DeepMember e, (ctyRulesOnDeep e).equiv a b = true ↔
+      equals ⟨e, a.1⟩ ⟨e, b.1⟩ = .ok (boolVal true) := fun a b => by
+    have h := D03b.equals_full hc (D03b.W.of a.2) (D03b.W.of b.2)
+    simp only [ctyRulesOnDeep, ctyRules, h]
+    cases D03b.R' e a.1 b.1 <;> simp [boolVal, Value.isMarked, Payload.isMarked, Value.isTrue]
+  refine ⟨fun a => ?_, fun a b h => ?_, fun a b c h1 h2 => ?_, fun a b h => ?_⟩
+  · rw [eqv]; exact (equals_equiv_with_sets e hc a.1 a.1 a.1 a.2 a.2 a.2).1
+  · rw [eqv] at h ⊢
+    rw [← (equals_equiv_with_sets e hc a.1 b.1 b.1 a.2 b.2 b.2).2.1]; exact h
+  · rw [eqv] at h1 h2 ⊢
+    exact (equals_equiv_with_sets e hc a.1 b.1 c.1 a.2 b.2 c.2).2.2.1 h1 h2
+  · rw [eqv] at h
+    have := ((equals_equiv_with_sets e hc a.1 b.1 b.1 a.2 b.2 b.2).2.2.2 h).2
+    simp only [ctyRulesOnDeep, ctyRules, this]
+
+/-- **The defaults of `ctyRules` are not taken on these members either** (audit item 4,
+for element types with sets): `Value.Hash` returns and `ctyRules.hash` is what it
+returns; `Equals` returns the known bool `ctyRules.equiv`; `setRules.Less` returns
+`ctyRules.less`.  So `Lawful.hash_eq` above is a statement about the real hash. -/
+theorem cty_rules_are_the_real_functions_with_sets (e : Ty) (hc : D03b.capFree e = true) (a b : DeepMember e) :
+    Value.hash ⟨e, a.1⟩ = .ok ((ctyRules e).hash a.1) ∧
+    equals ⟨e, a.1⟩ ⟨e, b.1⟩ = .ok (boolVal ((ctyRules e).equiv a.1 b.1)) ∧
+    setLess e a.1 b.1 = .ok (ctyLessB e a.1 b.1) ∧ (ctyRules e).less = some (ctyLessB e) := by
+  have wa := D03b.W.of a.2
+  have wb := D03b.W.of b.2
+  obtain ⟨bs, _, h2⟩ := (hash_with_sets e hc a.1 wa.m.1).2
+  have h3 := D03b.equals_full hc wa wb
+  refine ⟨by simp only [ctyRules, h2], ?_, (D03b.ctyLessB_enc hc wa.m.1 wb.m.1).1, rfl⟩
+  rw [h3]
+  simp only [ctyRules, h3]
+  cases D03b.R' e a.1 b.1 <;> rfl
+
+/-- **Value sets whose members contain sets refine mathematical sets** (`set_refines`,
+`set_inv` at `setRules{e}`): every history keeps the invariant, ends in the
+mathematical results and answers every call as the mathematical sets dictate. -/
+theorem valueSet_refines_with_sets (e : Ty) (hc : D03b.capFree e = true)
+    (ops : List (SetOp (DeepMember e))) (st : List (SetImpl (DeepMember e)))
+    (h : ∀ i, SetImpl.Inv (ctyRulesOnDeep e) (SetImpl.getReg st i)) :
+    (∀ i, SetImpl.Inv (ctyRulesOnDeep e) (SetImpl.getReg (SetImpl.runRegs (ctyRulesOnDeep e) ops st).1 i)) ∧
+    SetImpl.absRegs (ctyRulesOnDeep e) (SetImpl.runRegs (ctyRulesOnDeep e) ops st).1 =
+      SetImpl.specRun (ctyRulesOnDeep e) ops (SetImpl.absRegs (ctyRulesOnDeep e) st) ∧
+    SetImpl.OutsOk (ctyRulesOnDeep e) (SetImpl.absRegs (ctyRulesOnDeep e) st) ops
+      (SetImpl.runRegs (ctyRulesOnDeep e) ops st).2 :=
+  have hR := cty_rules_lawful_with_sets e hc
+  ⟨set_inv hR ops st h, set_refines hR ops st h⟩
+
+/-- the carrier holds a list of sets, an object with a set attribute and a set of sets -/
+example :
+    Payload.deepMember (.list (.set .string))
+      (.seq [.sset [(ctyRules .string).hash (.s "a"), (ctyRules .string).hash (.s "b")] [.s "a", .s "b"], .sset [] [], .null]) = true ∧
+    Payload.deepMember (.object ["s"] [.set .number] [])
+      (.smap ["s"] [.sset [(ctyRules .number).hash (.n (.fin false 1 70 53))] [.n (.fin false 1 70 53)]]) = true ∧
+    Payload.deepMember (.set (.set .bool))
+      (.sset [(ctyRules (.set .bool)).hash (.sset [(ctyRules .bool).hash (.b true)] [.b true])]
+        [.sset [(ctyRules .bool).hash (.b true)] [.b true]]) = true := by decide +kernel
+
+/-- well-formed set nodes exist: the two sets `{"a","b"}` built in either order (same
+ids, members stored in bucket order), a set of two integers at different
+precisions, the empty set; the set holding the two tied tuples of
+`set_order_counterexample` is NOT well-formed (its `Less` is not total) -/
+example : Payload.setWF .string [(ctyRules .string).hash (.s "a"), (ctyRules .string).hash (.s "b")] [.s "a", .s "b"] = true ∧
+    Payload.setWF .number [(ctyRules .number).hash (.n (.fin false 1 70 53)), (ctyRules .number).hash (.n (Num.ofInt 3 64))]
+      [.n (.fin false 1 70 53), .n (Num.ofInt 3 64)] = true ∧
+    Payload.setWF (.tuple [.string]) [] [] = true ∧
+    Payload.setWF w6T [3407990228, 3407990228] [w6a, w6b] = false := by decide +kernel
+
+/-! #### capsule types: the `Equals` / `HashKey` parameters instantiated -/
+
+/-- **`setRules` of a capsule type meet the contract of `cty/set`** whenever the
+type's `Equals` (else `RawEquals`, else pointer identity) is an equivalence and
+capsules it equates have the same `HashKey` (or there is no `HashKey`) —
+`CapsuleOps.rules` follows the capsule branches of `Value.Equals`
+(value_ops.go:379) and `appendSetHashBytes` (set_internals.go:255). -/
+theorem capsule_rules_lawful (ops : CapsuleOps) (h : ops.Lawful) : ops.rules.Lawful :=
+  CapsuleOps.rules_lawful h
+
+/-- …so every history of `ValueSet` calls over capsule values refines mathematical
+sets (`set_refines`, `set_inv` at these rules). -/
+theorem capsule_valueSet_refines (ops : CapsuleOps) (h : ops.Lawful) (hist : List (SetOp Nat)) (st : List (SetImpl Nat))
+    (hi : ∀ i, SetImpl.Inv ops.rules (SetImpl.getReg st i)) :
+    (∀ i, SetImpl.Inv ops.rules (SetImpl.getReg (SetImpl.runRegs ops.rules hist st).1 i)) ∧
+    SetImpl.absRegs ops.rules (SetImpl.runRegs ops.rules hist st).1 =
+      SetImpl.specRun ops.rules hist (SetImpl.absRegs ops.rules st) ∧
+    SetImpl.OutsOk ops.rules (SetImpl.absRegs ops.rules st) hist (SetImpl.runRegs ops.rules hist st).2 :=
+  have hR := capsule_rules_lawful ops h
+  ⟨set_inv hR hist st hi, set_refines hR hist st hi⟩
+
+/-- the two lawful instances: no operations at all (pointer identity, one hash for
+every capsule), and `Equals` = "same key" with `HashKey` = that key -/
+theorem capsule_lawful_instances (k : Nat → String) :
+    CapsuleOps.plainOps.Lawful ∧ CapsuleOps.plainOps.valid = true ∧ (CapsuleOps.keyedOps k).Lawful ∧
+      (CapsuleOps.keyedOps k).KeyInjective ∧ (CapsuleOps.keyedOps k).valid = true :=
+  ⟨CapsuleOps.plainOps_lawful, rfl, CapsuleOps.keyedOps_lawful k, CapsuleOps.keyedOps_injective k, rfl⟩
+
+/-- **`Less` on capsules is a strict order, total between inequivalent capsules**,
+when moreover the hash key separates inequivalent capsules ("`HashKey` injective up
+to `Equals`"), `RawEquals` agrees with `Equals`, and the keys are quotable — then a
+set of capsules iterates in an order that depends only on its members. -/
+theorem capsule_iteration_order_indep (ops : CapsuleOps) (h : ops.Lawful) (hi : ops.KeyInjective)
+    (hr : ∀ a b, ops.rawEqv a b = ops.eqv a b) (hq : ∀ a, ∃ x, ops.hashText a = .ok x) {s1 s2 : SetImpl Nat}
+    (h1 : SetImpl.Inv ops.rules s1) (hperm : (SetImpl.values s1).Perm (SetImpl.values s2)) :
+    SetImpl.StrictTotalOn ops.rules ops.lessB (SetImpl.values s1) ∧
+    SetImpl.iter ops.rules s1 = SetImpl.iter ops.rules s2 := by
+  have ht := CapsuleOps.less_strictTotal h hi hr hq (SetImpl.values s1)
+  refine ⟨ht, ?_⟩
+  simp only [SetImpl.iter, CapsuleOps.rules]
+  exact values_order_indep_of_total _ h1 hperm ht
+
+/-- the full-strength clauses for capsule types: lawful whatever the callbacks;
+iteration order a function of the members -/
+def CapsuleRulesLawful : Prop := ∀ ops : CapsuleOps, ops.rules.Lawful
+def CapsuleOrderIndependent : Prop :=
+  ∀ (ops : CapsuleOps) (l l' : List Nat), ops.Lawful → l.Perm l' →
+    SetImpl.iter ops.rules (SetImpl.fromList ops.rules l) = SetImpl.iter ops.rules (SetImpl.fromList ops.rules l')
+
+/-- **What breaks otherwise (1).**  A `HashKey` FINER than `Equals` (every capsule
+equal, two different keys): the rules are not lawful, and the set built from
+capsules 0 and 1 holds both although they are `Equals`. -/
+theorem capsule_hashkey_finer_counterexample :
+    let ops := CapsuleOps.finerKeyOps
+    ops.valid = true ∧ ops.eqv 0 1 = true ∧ ops.rules.hash 0 ≠ ops.rules.hash 1 ∧
+    SetImpl.values (SetImpl.fromList ops.rules [0, 1]) = [1, 0] ∧ ¬ ops.rules.Lawful := by
+  refine ⟨rfl, by decide +kernel, by decide +kernel, by decide +kernel, fun h => ?_⟩
+  exact absurd (h.hash_eq 0 1 (by decide +kernel)) (by decide +kernel)
+
+theorem capsule_rules_lawful_false : ¬ CapsuleRulesLawful :=
+  fun h => capsule_hashkey_finer_counterexample.2.2.2.2 (h _)
+
+/-- **What breaks otherwise (2).**  Without a `HashKey` every capsule has the hash
+text `«?»`: the rules are lawful, but `Less` orders no two capsules, all share one
+bucket, and iteration order is insertion order (the property statement excludes
+capsule members from the iteration-order clause for this reason). -/
+theorem capsule_order_counterexample :
+    let ops := CapsuleOps.plainOps
+    ops.Lawful ∧ ops.lessB 1 2 = false ∧ ops.lessB 2 1 = false ∧
+    SetImpl.iter ops.rules (SetImpl.fromList ops.rules [1, 2]) = [1, 2] ∧
+    SetImpl.iter ops.rules (SetImpl.fromList ops.rules [2, 1]) = [2, 1] := by
+  refine ⟨CapsuleOps.plainOps_lawful, ?_, ?_, ?_, ?_⟩ <;> decide +kernel
+
+theorem capsule_order_independent_false : ¬ CapsuleOrderIndependent := by
+  intro h
+  have c := capsule_order_counterexample
+  have := h CapsuleOps.plainOps [1, 2] [2, 1] c.1 (List.Perm.swap _ _ [])
+  rw [c.2.2.2.1, c.2.2.2.2] at this
+  cases this
+
+/-- the keyed instance satisfies every hypothesis of `capsule_iteration_order_indep`
+(keys "k0", "k1" by parity) -/
+example : let ops := CapsuleOps.keyedOps fun a => if a % 2 == 0 then "k0" else "k1"
+    ops.Lawful ∧ ops.KeyInjective ∧ (∀ a b, ops.rawEqv a b = ops.eqv a b) ∧ (∀ a, ∃ x, ops.hashText a = .ok x) := by
+  refine ⟨CapsuleOps.keyedOps_lawful _, CapsuleOps.keyedOps_injective _, fun a b => rfl, fun a => ?_⟩
+  simp only [CapsuleOps.hashText, CapsuleOps.keyedOps]
+  by_cases h : (a % 2 == 0) = true
+  · rw [if_pos h]; exact app_ok ⟨_, rfl⟩ (app_ok (ok_of_isOk (by decide +kernel)) ⟨_, rfl⟩)
+  · rw [if_neg h]; exact app_ok ⟨_, rfl⟩ (app_ok (ok_of_isOk (by decide +kernel)) ⟨_, rfl⟩)
 
 end Values
 /-! ######################## end of SECTION «values» ######################## -/
